@@ -126,7 +126,23 @@ class Prepared:
         return c
 
 
+WITNESS_PROBLEMS = [
+    # (assignment, formats) of recorded findings, replayed first on every run
+    ("A(i,j,k) = B(j,i,k)", {"A": "dds", "B": "dss"}),                       # F3
+    ("a(i) = (b(i) + c(i)) * d(i)", {"a": "d", "b": "d", "c": "s", "d": "s"}),  # F11 (fixed)
+    ("a(i) = (b(i) + c(i)) * d(i)", {"a": "d", "b": "s", "c": "s", "d": "s"}),  # F11 (fixed)
+    ("a(i) = b(i) * c(i) + d(i) + (e(i) + g(i)) * b(i)", {"a": "s", "b": "s", "c": "s", "d": "s", "e": "s", "g": "s"}),  # F11 (fixed)
+    ("a() = b() + c(k) + d(k)", {"a": "", "b": "", "c": "d", "d": "s"}),      # F1 (fixed)
+    ("a() = (b() + c(k)) * (d(k) + e())", {"a": "", "b": "", "c": "d", "d": "d", "e": ""}),  # F12
+    ("a() = 100000 * 100000", {"a": ""}),                                     # F2 (fixed)
+]
+
+
 def enumerate_problems(chk: Check, n_random: int, per_assignment: int, max_leaves=4, extra_texts=()):
+    from .gen import parse_fmt
+
+    for text, fs in WITNESS_PROBLEMS:
+        yield Prepared(text, {n: parse_fmt(f) for n, f in fs.items()})
     rng = chk.rng
     texts = list(problems.CURATED) + list(extra_texts)
     texts += [problems.random_assignment(rng, max_leaves) for _ in range(n_random)]
